@@ -259,16 +259,16 @@ const prelude = `(set-logic ALL)
 (declare-fun sat (Str Int) Int)
 (declare-datatypes ((Slice 0)) (((mk-slice (s-arr Int) (s-off Int) (s-len Int) (s-cap Int)))))
 (declare-datatypes ((Iface 0)) (((mk-iface (i-tag Int) (i-val Int)))))
-(assert (forall ((s Str)) (! (>= (slen s) 0) :pattern ((slen s)))))
+(assert (forall ((s Str)) (! (and (>= (slen s) 0) (<= (slen s) 281474976710656)) :pattern ((slen s)))))
 (assert (forall ((s Str) (i Int)) (! (and (<= 0 (sat s i)) (<= (sat s i) 255)) :pattern ((sat s i)))))
 (declare-fun box$Str (Str) Int)
 (declare-fun unbox$Str (Int) Str)
 (assert (forall ((s Str)) (! (= (unbox$Str (box$Str s)) s) :pattern ((box$Str s)))))
 (declare-fun str_of ((Array Int Int) Int Int) Str)
-(assert (forall ((a (Array Int Int)) (o Int) (n Int)) (! (=> (>= n 0) (= (slen (str_of a o n)) n)) :pattern ((str_of a o n)))))
+(assert (forall ((a (Array Int Int)) (o Int) (n Int)) (! (=> (and (>= n 0) (<= n 281474976710656)) (= (slen (str_of a o n)) n)) :pattern ((str_of a o n)))))
 (assert (forall ((a (Array Int Int)) (o Int) (n Int) (i Int)) (! (=> (and (<= 0 i) (< i n) (<= 0 (select a (+ o i))) (<= (select a (+ o i)) 255)) (= (sat (str_of a o n) i) (select a (+ o i)))) :pattern ((sat (str_of a o n) i)))))
 (declare-fun substr (Str Int Int) Str)
-(assert (forall ((s Str) (o Int) (n Int)) (! (=> (>= n 0) (= (slen (substr s o n)) n)) :pattern ((substr s o n)))))
+(assert (forall ((s Str) (o Int) (n Int)) (! (=> (and (>= n 0) (<= n 281474976710656)) (= (slen (substr s o n)) n)) :pattern ((substr s o n)))))
 (assert (forall ((s Str) (o Int) (n Int) (i Int)) (! (=> (and (<= 0 i) (< i n)) (= (sat (substr s o n) i) (sat s (+ o i)))) :pattern ((sat (substr s o n) i)))))
 (define-fun wrap64 ((x Int)) Int (let ((m (mod x 18446744073709551616))) (ite (>= m 9223372036854775808) (- m 18446744073709551616) m)))
 (define-fun bit ((x Int) (k Int)) Int (mod (div x k) 2))
@@ -301,11 +301,11 @@ func (vc *VC) fact(term, desc string) {
 	if term == "true" {
 		return
 	}
-	vc.Items = append(vc.Items, Item{Kind: itFact, Term: term, Desc: desc})
+	vc.Items = append(vc.Items, Item{Kind: itFact, Term: simplifyTerm(term), Desc: desc})
 }
 
 func (vc *VC) oblig(name, class, term, desc string) {
-	vc.Items = append(vc.Items, Item{Kind: itOblig, Name: name, Class: class, Term: term, Desc: desc})
+	vc.Items = append(vc.Items, Item{Kind: itOblig, Name: name, Class: class, Term: simplifyTerm(term), Desc: desc})
 }
 
 func (vc *VC) assume(a string) { vc.assumptions[a] = true }
@@ -432,11 +432,16 @@ func (vc *VC) hfresh(h *Heap, comp string) string {
 // wellFormedComp attaches range axioms to a fresh version of a component
 // that stores bounded integers (bytes, QOS ...).
 func (vc *VC) wellFormedComp(comp, name string) {
+	sort := vc.compSort[comp]
+	if sort == "(Array Int Slice)" {
+		// every slice header stored in memory is well-formed
+		vc.decl("wf:"+name, fmt.Sprintf("(assert (forall ((a Int)) (! (let ((s (select %s a))) (and (<= 0 (s-off s)) (<= 0 (s-len s)) (<= (s-len s) (s-cap s)) (<= (+ (s-off s) (s-cap s)) %s) (<= 0 (s-arr s)) (=> (= (s-arr s) 0) (= (s-cap s) 0)))) :pattern ((select %s a)))))", name, maxLenStr, name))
+		return
+	}
 	r, ok := vc.w.compRange[comp]
 	if !ok {
 		return
 	}
-	sort := vc.compSort[comp]
 	lo, hi := sBig(r[0]), sBig(r[1])
 	if strings.HasPrefix(sort, "(Array Int (Array Int Int))") {
 		vc.decl("wf:"+name, fmt.Sprintf("(assert (forall ((a Int) (i Int)) (! (and (<= %s (select (select %s a) i)) (<= (select (select %s a) i) %s)) :pattern ((select (select %s a) i)))))", lo, name, name, hi, name))
